@@ -21,20 +21,21 @@ RULE = ('graphs: nodes 0..n-1, entry 0; quick = every digraph with <= 3 nodes (s
         'Post dominators: every sink node of the graph as exit. non-trivial = distinct graph with >= 3 nodes, all '
         'reachable, in which at least one node has an immediate dominator different from the entry or a '
         'non-empty dominance frontier')
-EXPLANATION = ('Unbounded Coq theorems (every graph): the reference (reachability by BFS, dominance by node removal, idom, '
-               'dominance frontier, post-dominance, can_reach table) equals the path definitions; immediate dominators '
-               'exist and are unique; the certificate checker is sound AND complete (accepts exactly the maps equal to the '
-               'definition on the nodes; never rejects the true map); the models of _calculate_dominator_tree + '
-               '_number_dominator_tree + below/below_or_same decide dominance / strict dominance for every accepted idom '
-               'map (c25_dominates_unbounded); the models of calculate_post_dominators and calculate_reach return the '
-               'path-defined sets whenever they terminate within their fuel (partial correctness; termination within '
-               'n*n+2 sweeps is bounded/observed). Bounded: a faithful model of lt.py (dfs numbering, semi, iterative path '
-               'compression, buckets, samedom fix-up) equals the reference idom on all graphs with 1..4 nodes for two set '
-               'iteration orders (c25_lt_bounded; KeyError exactly outside the code\'s domain), and on all 16^5 loop-free '
-               '5-node graphs in the thorough tier (16 vm_compute shards, not a named theorem); Cytron DF model equals the '
-               'definition on all graphs with 1..4 nodes. NOT proved: Lengauer-Tarjan and Cytron DF for all graphs (per '
-               'graph the real LT output is validated by the verified checker and the model is compared with the real run '
-               'including dfnum/parent/semi arrays). Graphs with nodes unreachable from the entry are outside the property.')
+EXPLANATION = ('Unbounded Coq theorems (every graph; Props/C25.v): the reference (reachability by BFS, dominance by node '
+               'removal, idom, dominance frontier, post-dominance, can_reach table) equals the path definitions; immediate '
+               'dominators exist and are unique; the certificate checker is sound AND complete; the models of '
+               '_calculate_dominator_tree + _number_dominator_tree + below/below_or_same decide dominance / strict '
+               'dominance for every accepted idom map (c25_dominates_unbounded); the model of '
+               'calculate_dominance_frontier (tree, explicit-stack bottom_up order, local + up rule) returns the dominance '
+               'frontier by definition for every accepted idom map (c25_df_cytron, with Cytron\'s recursion '
+               'c25_df_decompose); the models of calculate_post_dominators and calculate_reach terminate within n*n+2 '
+               'sweeps and return the path-defined sets (total correctness). Bounded (Props/C25_bounded.v, vm_compute): a '
+               'faithful model of lt.py (dfs numbering, semi, iterative path compression, buckets, samedom fix-up) equals '
+               'the reference idom on all graphs with 1..4 nodes for two set iteration orders (c25_lt_bounded; KeyError '
+               'exactly outside the code\'s domain); thorough tier (Props/C25_thorough.v): the same on all 16^5 loop-free '
+               '5-node graphs (c25_lt_bounded5). NOT proved: Lengauer-Tarjan for all graphs (per graph the real LT output is '
+               'validated by the verified checker and the model is compared with the real run including '
+               'dfnum/parent/semi arrays). Graphs with nodes unreachable from the entry are outside the property.')
 TRUSTED = ['hand models Model/DomTree.v and Model/LengauerTarjan.v mirror cfg.py/fixed_point_dominator.py/lt.py/digraph.dfs (cross-checked per run on every generated graph, LT including its dfnum/parent/semi arrays)',
            'tools/props/c25.py builds the ppci ControlFlowGraph and the Coq graph literal from the same edge list',
            'Python set iteration order does not influence the (set-valued) results; results are compared as sorted lists']
@@ -47,15 +48,15 @@ MANIFEST = {
             'nodes) the real Lengauer-Tarjan idom map is accepted by a Coq-verified certificate checker (sound and complete '
             'for all graphs: accepted map = immediate dominators by the path definition), and a faithful Coq model of lt.py '
             'reproduces the real run (dfnum, parent, semi, idom) and is proved equal to the definition on all graphs with <= 4 '
-            'nodes (all loop-free 5-node graphs in the thorough tier). Proved for all graphs: the modelled dominates / '
-            'strictly_dominates pipeline (dominator tree, interval numbering, interval tests) decides path-defined dominance '
-            'for any accepted idom map; the post-dominator and reach fixpoint models return the path-defined sets when they '
-            'terminate; the reference answers used for dominance frontier / post-dominators / can_reach equal the '
-            'definitions. Cytron dominance-frontier model: bounded to <= 4 nodes.',
-    'note': 'no theorem about Lengauer-Tarjan or Cytron DF on all graphs (bounded theorems + per-graph validation); hand '
-            'models of lt.py / cfg.py / fixed_point_dominator.py are tied to the code by per-run differential correspondence '
-            '(set iteration order of the real run is passed to the LT model); fixpoint termination bound not proved; graphs '
-            'with unreachable nodes are out of scope. No axioms.',
+            'nodes (all loop-free 5-node graphs in the thorough tier). Proved for all graphs, given any accepted idom map: '
+            'the modelled dominates / strictly_dominates pipeline (dominator tree, interval numbering, interval tests) decides '
+            'path-defined dominance; the modelled calculate_dominance_frontier (Cytron, bottom-up) returns the dominance '
+            'frontier by definition; the post-dominator and reach fixpoint models terminate and return the path-defined sets.',
+    'note': 'no theorem about Lengauer-Tarjan on all graphs (bounded theorems + per-graph validation by the verified checker); '
+            'hand models of lt.py / cfg.py / fixed_point_dominator.py are tied to the code by per-run differential '
+            'correspondence (set iteration order of the real run is passed to the LT model); graphs with unreachable nodes and '
+            'exit nodes with successors are out of scope; coqchk re-checks Props/C25.v, the vm_compute families are '
+            'coqc-checked only. No axioms.',
     'technique': 'verified certificate checker + verified reference oracle in Coq, hand models with unbounded and bounded-exhaustive theorems, differential correspondence',
 }
 
@@ -445,6 +446,19 @@ def search(ctx, graphs=None):
     ctx.cov['evaluations'] += k
 
 
+def with_coqchk_off(fn):
+    import os
+    prev = os.environ.get('VERIF_COQCHK')
+    os.environ['VERIF_COQCHK'] = '0'
+    try:
+        return fn()
+    finally:
+        if prev is None:
+            os.environ.pop('VERIF_COQCHK', None)
+        else:
+            os.environ['VERIF_COQCHK'] = prev
+
+
 def lt_shards5(ctx):
     """thorough tier: the LT model equals the reference on all 16^5 loop-free 5-node graphs (16 vm_compute shards)"""
     import subprocess
@@ -488,11 +502,22 @@ def run(ctx):
     deep = not ctx.quick()
     ok, _ = ctx.build(['Proofs/C25_ref.vo', 'Proofs/C25_cert.vo', 'Proofs/C25_intervals.vo',
                        'Proofs/C25_bounded.vo', 'Proofs/C25_lt.vo', 'Proofs/C25_complete.vo', 'Proofs/C25_compose.vo',
-                       'Proofs/C25_pdom.vo', 'Proofs/C25_reach.vo', 'Proofs/C25_tree.vo', 'Lib/Val.vo'])
+                       'Proofs/C25_pdom.vo', 'Proofs/C25_reach.vo', 'Proofs/C25_tree.vo', 'Proofs/C25_term.vo', 'Proofs/C25_df.vo', 'Lib/Val.vo'])
     if ok:
-        ctx.check_props('Props/C25.v')
+        ctx.check_props('Props/C25.v')          # unbounded theorems; thorough tier also runs coqchk on it
+        # bounded vm_compute families: coqc + Print Assumptions only (coqchk would re-evaluate ~2 minutes of
+        # vm_compute with its slower machine: ~9 minutes, outside the tier budget)
+        with_coqchk_off(lambda: ctx.check_props('Props/C25_bounded.v'))
     if ok and deep:
-        lt_shards5(ctx)
+        # all 16^5 loop-free 5-node graphs: 16 shard files built in parallel by make (cached afterwards)
+        import time
+        t0 = time.time()
+        if ctx.build(['Proofs/C25_lt5.vo'], timeout=1500)[0]:
+            with_coqchk_off(lambda: ctx.check_props('Props/C25_thorough.v'))
+        ctx.cov['stages']['lt_model_5_nodes_loop_free'] = {'shards': 16, 'graphs': 16 ** 5,
+                                                            'wall_s': round(time.time() - t0, 1)}
+        ctx.cov['stages']['coqchk_skipped'] = ('Props/C25_bounded.v, Props/C25_thorough.v (vm_compute families; '
+                                               'coqc-checked); coqchk runs on Props/C25.v')
     oracle_graphs, coq_graphs = graph_sets(ctx, deep or bool(ctx.failed_stages))
     # ---- correspondence with the verified reference / certificate checker / hand models
     if ctx.build(['Model/DomTree.vo', 'Model/LengauerTarjan.vo', 'Lib/Val.vo'])[0]:
